@@ -203,10 +203,138 @@ def C15():
     )
 
 
-PROPERTIES = {"C14": C14, "C15": C15, "C18": C18, "C04": C04, "C06": C06, "C08": C08, "C10": C10, "C12": C12, "C16": C16, "C19": C19}
+def C01():
+    from contracts.emitters import UNITS as EM
+    from contracts.attributes import EncodeRows
+    from contracts.encoder import EncodeCtx
+    from contracts.row import ColWidths, ConvertSpecialChars, LEMMAS
+    from contracts.placement import PageBreak, PageSettings
+    from contracts.figures import EncodeSingleFigure
+    from contracts.colors import GenerateColorTable
+    from contracts import replayers as R
+    units = [ContractUnit(u) for u in EM] + [ContractUnit(EncodeRows()), ContractUnit(EncodeCtx()), ContractUnit(ColWidths()),
+             ContractUnit(ConvertSpecialChars()), ContractUnit(PageBreak()), ContractUnit(PageSettings()), ContractUnit(EncodeSingleFigure()),
+             ContractUnit(GenerateColorTable())] + LEMMAS
+    return Property(
+        "C01", units=units, level="proof",
+        technique="measure contracts (brace balance / minimal prefix balance / ASCII / integral parameters) on the real emitters' f-strings, row-shape "
+                  "contract #cellx == #cell, document skeleton and prolog order on UnifiedRTFEncoder.encode, safety obligations (implicit exceptions) in every unit",
+        trusted_base=[SOLVERS, ENGINE, "homomorphism laws of bal/low/ascii over concatenation (DESIGN 1.5)", "RTF reader reads the literal chunk shapes as the RTF specification says (L4)",
+                      "pydantic model construction = record construction after declared-type coercion"],
+        assumptions=["user text is balanced w.r.t. unescaped braces (the property's own hypothesis)",
+                     "multi-section / figure skeletons, _render_column_headers (as_colheader=False), encode_column_header, encode_spanning_row, "
+                     "encode_footnote/source and _encode_text are not yet under contract in this check; totality of the pydantic/polars glue is assumed (L2)"],
+        replayers={"row.py::TextContent._convert_special_chars": R.replay_convert_special_chars, "row.py::Utils._col_widths": R.replay_col_widths,
+                   "services/document_service.py::": R.replay_page_geometry, "rtf/syntax.py::": R.replay_page_geometry,
+                   "services/figure_service.py::": R.replay_figures, "services/color_service.py::": R.replay_color_index,
+                   "encoding/unified_encoder.py::": R.replay_purity},
+        design_ref="4/C01, A14")
+
+
+def C02():
+    from contracts.attributes import EncodeRows
+    from contracts.renderer import RenderBody
+    from contracts.emitters import RowAsRtf, TextAsRtf
+    from contracts.pagination_core import AssignPages
+    from contracts.replay_pagination import replay_assign_pages
+    return Property(
+        "C02", units=[ContractUnit(EncodeRows()), ContractUnit(RenderBody()), ContractUnit(RowAsRtf()), ContractUnit(TextAsRtf()), ContractUnit(AssignPages())],
+        level="proof",
+        technique="row-view contracts: _assign_pages pages are consecutive intervals covering all rows; _render_body emits every page row exactly once in order; "
+                  "_encode emits one Row per frame row whose cell j shows the display text of cell (i, j) in column order; Row._as_rtf keeps cell order; one delimiter space before the text",
+        trusted_base=[SOLVERS, ENGINE, POLARS, "polars slice / df[a:b] row-interval semantics (assumed)"],
+        assumptions=["the three paginate() strategies (page = interval slice), _apply_data_post_processing (re-cut on the column-reduced frame) and "
+                     "prepare_dataframe_for_body_encoding (column removal keeps order) are not yet under contract in this check; multi-section order likewise"],
+        replayers={"pagination/core.py::PageBreakCalculator._assign_pages": replay_assign_pages},
+        design_ref="4/C02")
+
+
+def C05():
+    from contracts.renderer import RenderBody
+    return Property(
+        "C05", units=[ContractUnit(RenderBody())], level="proof",
+        technique="ghost heading state (displayed value and position per page_by level) in the loop invariant of the real PageRenderer._render_body, "
+                  "inner level loop unrolled for the property's 1-3 levels; obligations at every row emission",
+        trusted_base=[SOLVERS, ENGINE, POLARS],
+        assumptions=["str() injective on non-null keys; a non-null key's text is not the literal 'None'",
+                     "_get_group_headers / _detect_group_boundaries (the boundaries' contract assumed here), render step 7 (page-top headings), the "
+                     "subline_by heading paragraph and the heading budget in calculate_row_metadata are not yet under contract in this check"],
+        replayers={}, design_ref="4/C05, A7")
+
+
+def C07():
+    from contracts.processor import PaginationBorders
+    from contracts.attributes import UpdateCell, UpdateRow, ToList, Iloc, LEMMAS
+    from contracts.emitters import CellAsRtf, BorderAsRtf
+    from contracts.placement import ShouldShowElement
+    return Property(
+        "C07", units=[ContractUnit(PaginationBorders()), ContractUnit(UpdateCell()), ContractUnit(UpdateRow()), ContractUnit(ToList()), ContractUnit(Iloc()),
+                      ContractUnit(CellAsRtf()), ContractUnit(BorderAsRtf()), ContractUnit(ShouldShowElement())] + LEMMAS,
+        level="proof",
+        technique="whole-matrix postcondition of the real _apply_pagination_borders per page kind (column-loop invariants 'columns < c done, everything else "
+                  "as before'), whole-view contracts of BroadcastValue.update_cell/to_list, emitter contracts for the cell border words",
+        trusted_base=[SOLVERS, ENGINE, POLARS, "copy.deepcopy returns a fresh equal object graph"],
+        assumptions=["page border_first on the first column-header row (_render_column_headers), the footnote/source border override in encode_footnote/"
+                     "encode_source and the multi-section first/last clauses are not yet under contract in this check"],
+        replayers={}, design_ref="4/C07")
+
+
+def C09():
+    from contracts.attributes import Iloc, ToList, UpdateCell, EncodeRows, LEMMAS
+    from contracts.renderer import RenderBody
+    from contracts.processor import PaginationBorders
+    from contracts.emitters import CellAsRtf, BorderAsRtf, TextFormatting, ParagraphFormatting
+    from contracts import replayers as R
+    return Property(
+        "C09", units=[ContractUnit(Iloc()), ContractUnit(ToList()), ContractUnit(UpdateCell()), ContractUnit(EncodeRows()), ContractUnit(RenderBody()),
+                      ContractUnit(PaginationBorders()), ContractUnit(CellAsRtf()), ContractUnit(BorderAsRtf()), ContractUnit(TextFormatting()),
+                      ContractUnit(ParagraphFormatting())] + LEMMAS,
+        level="proof",
+        technique="binding obligations at every constructor call of the real TableAttributes._encode: each formatting field of cell (i, j) is "
+                  "attr.iloc(i + row_offset, j); BroadcastValue.iloc = value[r mod R][c mod C]; _render_body passes the page-relative offset; emitters emit every field",
+        trusted_base=[SOLVERS, ENGINE, POLARS],
+        assumptions=["the map from page-relative to ORIGINAL row index (PageContext / per-page attribute copy) and the attribute column slicing in "
+                     "prepare_dataframe_for_body_encoding are not yet under contract in this check (matrix attributes across page breaks: see DESIGN 5)"],
+        replayers={"attributes.py::BroadcastValue": R.replay_broadcast}, design_ref="4/C09, A5-A6")
+
+
+PROPERTIES = {"C01": C01, "C02": C02, "C05": C05, "C07": C07, "C09": C09, "C14": C14, "C15": C15, "C18": C18, "C04": C04, "C06": C06, "C08": C08, "C10": C10, "C12": C12, "C16": C16, "C19": C19}
 
 # ---- texts for MANIFEST.json (tools/gen_manifest.py) ------------------------------------------------------
 MANIFEST_TEXT = {
+    "C01": {
+        "text": "For the emitters that build every RTF fragment (border, cell, paragraph/text formatting, text run, row, data rows, page break, page "
+                "settings, colour table, picture group) the real f-strings are shown brace-balanced with non-negative prefix balance, ASCII, with integral "
+                "numeric parameters; a row has exactly one \\cellx and one \\cell per cell in the same order; the single-section document is "
+                "'{\\rtf1...' + prolog in fixed order + pages + a single closing brace last; implicit exceptions inside these units are proof obligations.",
+        "note": "User text is assumed balanced (the property's hypothesis). Carriers not yet under contract are listed in the evidence; glue totality (pydantic/polars) is assumed.",
+    },
+    "C02": {
+        "text": "Composition of row-view contracts on the real code: page numbers form consecutive intervals covering all rows; within a page every "
+                "row is emitted exactly once, in order; one Row per frame row with cells in column order whose text is '' for null and str(value) otherwise; "
+                "the row emitter keeps cell order and puts exactly one delimiter space before the text.",
+        "note": "The strategy/post-processing/column-removal carriers are named as not yet under contract; polars slicing is an assumed contract.",
+    },
+    "C05": {
+        "text": "Loop invariant with ghost heading state on the real _render_body (1, 2 and 3 page_by levels): at every emission of data rows each "
+                "active level's displayed heading equals that run's value, outer headings precede inner ones, dividers and nulls never produce a heading, "
+                "all rows are still emitted, and the body never ends on a heading.",
+        "note": "Boundary detection and page-top headings are assumed per their contracts (A8/A9) and named as not yet under contract.",
+    },
+    "C07": {
+        "text": "For every page kind (first / middle / last / only page) and all flag combinations the real _apply_pagination_borders yields border "
+                "matrices with: row 0 top = body.border_first (page.border_first on a first page without headers), last row bottom = body.border_last "
+                "before a break unless a table-rendered footnote/source on that page takes it, page.border_last at the document end unless a "
+                "table-rendered component takes it, every other edge = the user's broadcast value; the attributes are a fresh copy.",
+        "note": "Header-row top border and the component override emitters are named as not yet under contract.",
+    },
+    "C09": {
+        "text": "Every formatting field handed to the cell/text/border/row constructors in the real _encode equals the attribute's broadcast value at "
+                "(i + row_offset, j) (row attributes at column 0), broadcast lookup is value[r mod R][c mod C], the renderer passes each segment's "
+                "page-relative start as row_offset, and the emitters write every such field (incl. border width and colour) into the output.",
+        "note": "The binding is proved relative to the page's attribute object; its relation to the ORIGINAL row index across page breaks and the "
+                "column slicing after page_by/subline_by removal are named as not yet under contract.",
+    },
     "C04": {
         "text": "Unbounded proof on the real AST of PageBreakCalculator._assign_pages: a 14-clause loop invariant (ghost prefix sums and "
                 "page intervals) is shown inductive and implies: pages are non-empty contiguous intervals in order, a break occurs iff a "
